@@ -19,6 +19,7 @@
  *   D <id> <from> <to>       bytes [from,to) of the code buffer
  *   M <id>                   whole caller buffer + "ok"/"BAD" for the guard regions
  *   B <id>                   buffer length as the library sees it (internal: growth)
+ *   X <id>                   call the code buffer as a function, print rax in hex (oracle runs only)
  *   F <id>                   asm_destroy_instance
  * Text is hex-encoded ("-" = empty) so that any byte except NUL can be sent.
  */
@@ -28,6 +29,7 @@
 #include <stdlib.h>
 #include <string.h>
 #include <stdint.h>
+#include <sys/mman.h>
 
 #define MAXI 16
 #define GUARD 64
@@ -45,6 +47,18 @@ static int blen[MAXI];
 
 static uint8_t scratch_raw[GUARD + SCRATCH + GUARD];
 static assemblyline_t scratch;
+
+/* put an inaccessible page directly behind an internal instance's mapping, so that the next
+   growth cannot extend it in place: mremap() then has to MOVE the buffer, which makes any use of a
+   stale buffer pointer deterministic (SIGSEGV on the unmapped old region) */
+static void block_behind(assemblyline_t al) {
+  struct assemblyline_peek *pk = (struct assemblyline_peek *)al;
+  uintptr_t end = (uintptr_t)pk->buffer + (uintptr_t)pk->buffer_len;
+  end = (end + 4095) & ~(uintptr_t)4095;
+#ifdef MAP_FIXED_NOREPLACE
+  mmap((void *)end, 4096, PROT_NONE, MAP_PRIVATE | MAP_ANONYMOUS | MAP_FIXED_NOREPLACE, -1, 0);
+#endif
+}
 
 static int hexval(int c) {
   if (c >= '0' && c <= '9') return c - '0';
@@ -161,6 +175,7 @@ int main(void) {
       break;
     case 'A': {
       char *txt = unhex(strtok_r(NULL, " ", &save));
+      if (!raw[id]) block_behind(inst[id]);
       int rc = asm_assemble_str(inst[id], txt);
       printf("%d %d\n", rc, asm_get_offset(inst[id]));
       free(txt);
@@ -171,6 +186,7 @@ int main(void) {
       char *txt = unhex(strtok_r(NULL, " ", &save));
       int d = atoi(strtok_r(NULL, " ", &save));
       int dest = -777;
+      if (!raw[id]) block_behind(inst[id]);
       int rc = asm_assemble_string_counting_chunks(inst[id], txt, c, d ? &dest : NULL);
       if (d) printf("%d %d %d\n", rc, asm_get_offset(inst[id]), dest);
       else printf("%d %d -\n", rc, asm_get_offset(inst[id]));
@@ -184,6 +200,9 @@ int main(void) {
       long from = atol(strtok_r(NULL, " ", &save));
       long to = atol(strtok_r(NULL, " ", &save));
       uint8_t *code = asm_get_code(inst[id]);
+      long lim = ((struct assemblyline_peek *)inst[id])->buffer_len; /* never read beyond the buffer */
+      if (to > lim) to = lim;
+      if (from > to) from = to;
       puthex(code + from, to - from);
       putchar('\n');
       break;
@@ -193,6 +212,11 @@ int main(void) {
       puthex(raw[id] + GUARD, blen[id]);
       printf(" %s\n", guards_ok(raw[id], blen[id]) ? "ok" : "BAD");
       break;
+    case 'X': { /* execute the code buffer as uint64_t f(void) (internal instances) */
+      uint64_t (*f)(void) = (uint64_t(*)(void))asm_get_code(inst[id]);
+      printf("%llx\n", (unsigned long long)f());
+      break;
+    }
     case 'B':
       printf("%d\n", ((struct assemblyline_peek *)inst[id])->buffer_len);
       break;
